@@ -2775,7 +2775,14 @@ impl Node for XmlDocumentType {
     }
 
     fn parent_node(&self) -> Option<XmlNode> {
-        Some(XmlDocument::from(self.declaration.borrow().parent()).as_node())
+        // A document type declaration that has been removed from its document has no parent.
+        let document = XmlDocument::from(self.declaration.borrow().parent());
+        let id = self.declaration.borrow().id();
+        if document.children().iter().any(|v| v.id() == id) {
+            Some(document.as_node())
+        } else {
+            None
+        }
     }
 
     fn child_nodes(&self) -> XmlNodeList {
